@@ -136,6 +136,12 @@ C["parse_operand"] = ("r", OPERAND % {"REQ": ", generic_kind(kind)", "FRAME": FR
             && (kind == GOpKind::IdRef ==> (v@.len() == 1 && v@[0] is IdRef))),
         // C03: one concrete operand of the variant(s) the kind dictates
         r matches Ok(v) ==> chunk_ok_n(kind, v@, 0, v@.len() as int),"""})
+# C01/C02 value level, proved per arm (R26): each operand is the word it was read from (first word of the chunk; both words of a pair)
+ARM_VAL = """requires old(self).decoder.wf(), old(self).decoder.limit is Some,
+    ensures %(FRAME)s
+        final(self).decoder.wf(), final(self).inst_index == old(self).inst_index,
+        r matches Ok(v) ==> (chunk_ok_n(GOpKind::%%(K)s, v@, 0, v@.len() as int)
+            && chunk_val(GOpKind::%%(K)s, v@, old(self).decoder.bytes@, old(self).decoder.offset as int)),""" % {"FRAME": FRAME}
 ARGS = OPERAND % {"REQ": "", "FRAME": FRAME, "ENS": ""}
 C["parse_spec_constant_op"] = ("r", """requires old(self).decoder.wf(), old(self).decoder.limit is Some,
     ensures %s
@@ -163,6 +169,9 @@ C["parse_operands"] = ("r", """requires old(self).decoder.wf(), old(self).decode
         r is Ok ==> final(self).decoder.offset - old(self).decoder.offset == 4 * (old(self).decoder.limit->0 - final(self).decoder.limit->0),
         // the delivered instruction is of the grammar entry's opcode
         r matches Ok(inst) ==> (inst.class.opcode == grammar.opcode && *inst.class == grammar::row_of(grammar.opcode)),
+        // C01/C02: result type and result id are the first word(s) of the operand words
+        r matches Ok(inst) ==> ((inst.result_type matches Some(t) ==> t == decoder::le32(old(self).decoder.bytes@, old(self).decoder.offset as int))
+            && (inst.result_id matches Some(i) ==> i == decoder::le32(old(self).decoder.bytes@, old(self).decoder.offset + (if inst.result_type is Some { 4int } else { 0int })))),
         // C03: result type / result id presence and operand structure are those of the row
         r matches Ok(inst) ==> conforms(grammar.operands@, inst.result_type, inst.result_id, inst.operands@, final(self).decoder.limit == Some(0usize)),
         r matches Err(s) ==> (!is_consumer_state(s) && !(s is Complete) && !(s is WordCountZero) && !(s is OpcodeUnknown) && !(s is OperandExceeded)
@@ -250,11 +259,14 @@ def build(tier="quick", must_fail=False):
     gsrc = Source.get(GEN)
     g.raw(HEADER)
     g.raw("verus! {")
-    lib_spirv.emit(g, with_alias=True)
+    lib_spirv.emit(g, with_alias=True, with_num=True)
     lib_dr.emit_grammar(g, with_reflect=False)
     lib_dr.emit_dr(g, with_new=True)
     g.raw("pub mod binary {\nuse vstd::prelude::*;\nuse crate::spirv;\nuse crate::dr;\nuse crate::grammar;\nuse std::result;")
-    decoder_unit.emit_stubs(g)
+    # the number of an enum value, hidden from the big queries (`v as u32` on a large enum is expensive for the solver):
+    # num_T(v) is `v as u32` by definition; the decoder contracts and the encoding spec are stated through it here
+    ENUM_NUM = lambda T: "crate::spirv::num_%s(v)" % T
+    decoder_unit.emit_stubs(g, enum_num=ENUM_NUM)
     emit_tracker_stub(g)
     g.raw("pub mod parser {")
     g.raw("use vstd::prelude::*;\nuse crate::spirv;\nuse crate::dr;\nuse crate::grammar;\nuse std::result;\n"
@@ -287,6 +299,18 @@ def build(tier="quick", must_fail=False):
     from .assemble import operand_variants
     kinds = [n for n, _ in enum_variants(Source.get("rspirv/grammar/autogen_table.rs").find("enum", "OperandKind"))]
     g.raw(parser_conf.spec_text(kinds, [v for v, _ in operand_variants()]))
+    # C01/C02 value level: the encoding spec of unit assemble (generated from the payload types of dr::Operand) and what
+    # "the operand just parsed re-encodes to the word(s) it was read from" means per kind
+    from . import assemble as assemble_unit
+    # `first_word(op)` is generated by unit assemble, which proves enc_operand(op) == [first_word(op)] (+ high half for 64 bits)
+    g.raw(assemble_unit.first_word_spec(enum_num=ENUM_NUM))
+    g.raw("""// the operand is a one-word operand whose word is the word at byte offset o
+pub open spec fn word_ok(op: dr::Operand, b: Seq<u8>, o: int) -> bool { first_word(op) == decoder::le32(b, o) }
+// C01/C02: value of the chunk parse_operand returns for a kind, read at offset o (strings: see Decoder::string, C11)
+pub open spec fn chunk_val(k: GOpKind, v: Seq<dr::Operand>, b: Seq<u8>, o: int) -> bool {
+    k != GOpKind::LiteralString ==> (v.len() >= 1 && word_ok(v[0], b, o)
+        && ((k == GOpKind::PairIdRefLiteralInteger || k == GOpKind::PairIdRefIdRef) ==> (v.len() == 2 && word_ok(v[1], b, o + 4))))
+}""")
     # Consumer trait with the ghost log (same text as unit parser_protocol) — parse_* never touch it
     tp = Piece(src.find("trait", "Consumer"))
     for name, ens in (("initialize", "final(self).log() == old(self).log().push(Event::Init(ans_of(a)))"),
@@ -386,6 +410,12 @@ def build(tier="quick", must_fail=False):
                 rid is Some <==> ((loperand_index >= 1 && grammar.operands@[0].kind == GOpKind::IdResult)
                     || (loperand_index >= 2 && grammar.operands@[1].kind == GOpKind::IdResult)),
                 forall|j: int| 0 <= j < loperand_index ==> (#[trigger] grammar.operands@[j]).quantifier != GOpCount::ZeroOrMore,
+                rtype matches Some(t) ==> t == decoder::le32(self.decoder.bytes@, o0),
+                rid matches Some(i) ==> i == decoder::le32(self.decoder.bytes@, o0 + (if rtype is Some { 4int } else { 0int })),
+                (rtype is None && rid is None && coperands@.len() == 0) ==> self.decoder.offset == o0,
+                (rtype is Some && rid is None && coperands@.len() == 0) ==> self.decoder.offset == o0 + 4,
+                (loperand_index == 1 && grammar.operands@.len() > 1 && grammar.operands@[0].kind == GOpKind::IdResultType
+                    && grammar.operands@[1].kind == GOpKind::IdResult) ==> coperands@.len() == 0,
             ensures
                 stop_ok(grammar.operands@, loperand_index as int, self.decoder.limit == Some(0usize)),
             decreases grammar.operands@.len() - loperand_index, self.decoder.limit->0,""")
@@ -506,17 +536,33 @@ pub fn unreachable_panic() -> (r: u32) requires false { unimplemented!() }
             def edit(p):
                 p.sub(r"=> panic!\(\),", "=> { unreachable_panic(); vec![] }", "R10", count=5)
                 R22 = lambda t: re.sub(r"(self\.decoder\.\w+\(\))\?", r"conv(\1)?", t)
+
+                def VAL(kind, lit, var):
+                    """ghost: unfold the (opaque) encoding of each constructed operand, then state the value fact of the arm"""
+                    ctors = re.findall(r"dr::Operand::(\w+)\(", lit)
+                    arm_texts.append((kind, "vec![%s]" % R22(lit)))
+                    return ""
+                    hints = ""
+                    return hints + " assert(chunk_val(GOpKind::%s, %s@, old(self).decoder.bytes@, old(self).decoder.offset as int));" % (kind, var)
+
+                def PVAL(kind, text):
+                    arm_texts.append((kind, "{%s ops }" % R22(text)))
+                    return text
+
+                def PVAL_unused(kind, text):
+                    return re.sub(r"(let mut ops = vec!\[dr::Operand::(\w+)\(val\)\];)",
+                                  lambda mo: mo.group(1) + " proof { assert(word_ok(ops@[0], old(self).decoder.bytes@, old(self).decoder.offset as int)); }", text)
                 # R25 + ghost: the vector built by each arm is named and checked against the arm's kind where it is built,
                 # so that a wrong arm fails its own assertion (R22 applied inside the rewritten arms)
                 n1 = p.sub(r"GOpKind::(\w+) => vec!\[((?:[^\[\]]|\[[^\]]*\])*?)\],",
-                           lambda m: "GOpKind::%s => { let av = vec![%s]; proof { assert(chunk_ok_n(GOpKind::%s, av@, 0, av@.len() as int)); } av }," % (
-                               m.group(1), R22(m.group(2)), m.group(1)), "R22+R25+ghost", flags=re.S)
+                           lambda m: "GOpKind::%s => { let av = vec![%s]; proof { assert(chunk_ok_n(GOpKind::%s, av@, 0, av@.len() as int)); %s } av }," % (
+                               m.group(1), R22(m.group(2)), m.group(1), VAL(m.group(1), m.group(2), "av")), "R22+R25+ghost", flags=re.S)
                 n2 = p.sub(r"GOpKind::(\w+) => \{\s*vec!\[((?:[^\[\]]|\[[^\]]*\])*?)\]\s*\}",
-                           lambda m: "GOpKind::%s => { let av = vec![%s]; proof { assert(chunk_ok_n(GOpKind::%s, av@, 0, av@.len() as int)); } av }" % (
-                               m.group(1), R22(m.group(2)), m.group(1)), "R22+R25+ghost", required=False, flags=re.S)
+                           lambda m: "GOpKind::%s => { let av = vec![%s]; proof { assert(chunk_ok_n(GOpKind::%s, av@, 0, av@.len() as int)); %s } av }" % (
+                               m.group(1), R22(m.group(2)), m.group(1), VAL(m.group(1), m.group(2), "av")), "R22+R25+ghost", required=False, flags=re.S)
                 n3 = p.sub(r"GOpKind::(\w+) => \{(\s*let val = [^;]*;\s*let mut ops = [^;]*;\s*ops\.append\([^;]*;)\s*ops\s*\}",
-                           lambda m: "GOpKind::%s => {%s proof { assert(chunk_ok_n(GOpKind::%s, ops@, 0, ops@.len() as int)); } ops }" % (
-                               m.group(1), R22(m.group(2)), m.group(1)), "R22+ghost", flags=re.S)
+                           lambda m: "GOpKind::%s => {%s proof { assert(chunk_ok_n(GOpKind::%s, ops@, 0, ops@.len() as int)); %s } ops }" % (
+                               m.group(1), R22(PVAL(m.group(1), m.group(2))), m.group(1), ""), "R22+ghost", flags=re.S)
                 # the same fact per arm as a tiny lemma over the constructors read off the arm (lifted): decides quickly
                 # (and names the arm) when an arm builds the wrong variant, where the in-function assertion only times out
                 for m in re.finditer(r"GOpKind::(\w+) => (?:\{\s*)?(?:let val = [^;]*;\s*let mut ops = )?vec!\[((?:[^\[\]]|\[[^\]]*\])*?)\]", p.text, re.S):
@@ -528,7 +574,9 @@ pub fn unreachable_panic() -> (r: u32) requires false { unimplemented!() }
                 if n1 + n2 + n3 + 5 != kinds_n:
                     raise Lost("parse_operand: %d arms, %d rewritten (+5 panic arms)" % (kinds_n, n1 + n2 + n3))
             arm_lemmas = []
+            arm_texts = []
             emit_fn(f, "r", C["parse_operand"][1], edit, r22=False)
+            po_line = f.line
         else:
             def edit(p):
                 # ghost cut points between the sequential `if` blocks (keeps the query linear)
@@ -547,6 +595,15 @@ pub fn unreachable_panic() -> (r: u32) requires false { unimplemented!() }
         if len(arm_lemmas) < 50:
             raise Lost("parse_operand: only %d arms lifted" % len(arm_lemmas))
         g.raw("// one lemma per arm of parse_operand (constructors lifted from the arm)\n" + "\n".join(arm_lemmas))
+        # R26: every arm `GOpKind::K => <expr>` of parse_operand as a function of the parser, real text: value-level contract
+        g.raw("impl Parser<'_, '_> {")
+        for K, txt in arm_texts:
+            if K == "LiteralString":
+                continue
+            g.raw("// %s:%d arm `GOpKind::%s =>` of parse_operand (R26)\npub fn parse_operand_val_%s(&mut self) -> (r: Result<Vec<dr::Operand>>)\n    %s\n{\n    Ok(%s)\n}" % (
+                GEN, po_line, K, K, ARM_VAL % {"K": K}, txt))
+            g.contract_clauses += 2
+        g.raw("}")
     g.n_generated = len(gfns)
     g.raw("} // mod parser")
     g.raw("} // mod binary")
@@ -623,6 +680,10 @@ def witness(failure, ctx):
                         ("decorate-specid-noparam", seeds.inst(71, 2, 1)), ("decorate-plain-extra", seeds.inst(71, 2, 0, 5)),
                         ("typeint-short", seeds.inst(21, 8, 32)), ("typeint-extra", seeds.inst(21, 8, 32, 0, 0))):
         cases.append(("c03-reject-" + name, seeds.to_hex_bytes(T + words)))
+    # C01/C02 value level: ids and literals with every byte non-zero must come back bit for bit
+    big = (seeds.HEADER[:3] + [0xffffffff] + seeds.HEADER[4:] + seeds.inst(5, 0xfffffff1, *seeds.s("x")) + seeds.inst(71, 0xfffffff2, 1, 0xfffefdfc)
+           + seeds.inst(21, 0xfffffff3, 32, 1) + seeds.inst(43, 0xfffffff3, 0xfffffff4, 0xfffefdfc) + seeds.inst(30, 0xfffffff5, 0xfffffff3, 0xf1f2f3f4))
+    cases.append(("c01-bigwords", seeds.to_hex_bytes(big)))
     # C01: crafted modules in layout order whose instructions must come back word-identical (or be rejected):
     # strings with non-UTF-8 bytes, with every length mod 4, 64-bit literals, all sections populated
     for bad in ([0xff, 0x41, 0, 0], [0x41, 0xc3, 0x28, 0], [0x41, 0x42, 0x43, 0x44, 0xe2, 0x82, 0, 0], [0x80, 0, 0, 0]):
